@@ -1,5 +1,8 @@
 """C28 -- the backward-compatibility linter is sound for TL1 wire compatibility (partial proof + per-instance oracle)."""
+import re
 import shutil
+
+import json
 
 from vlib import *
 import lint_lib as L
@@ -70,18 +73,25 @@ def gen_ops(ctx):
         ctx._lint["err"] = probes
         return []
     ctx.notes["model_variant(bare,args,rep fixed?)"] = variant
-    n = 60 if quick else 600
+    n = 90 if quick else 800
     pairs, kinds = [], []
     for i in range(n):
         s = L.Gen(rng).schema(ntypes=rng.randrange(3, 7), nfuns=rng.randrange(1, 3))
+        if i % 5 != 0:   # explicit tags: appending a field must not move the (otherwise CRC32-derived) tag
+            for c in s.combs:
+                c.tag = rng.randrange(1, 1 << 32)
         r = rng.random()
-        if r < 0.7:
-            new, ks = L.safe_edits(rng, s, rng.randrange(1, 5))
+        if r < 0.5:
+            new, ks = L.safe_edits(rng, s, rng.randrange(1, 5), strict_masks=True)
             k = ("safe:" + ks[0] if len(set(ks)) == 1 else f"safe:mixed-seq{len(ks)}") if ks else None
-        elif r < 0.85:
+        elif r < 0.6:
             new, k = L.unsafe_edit(rng, s, "ty-bare"), "ty-bare"
-        elif r < 0.93:
+        elif r < 0.66:
             new, k = L.unsafe_edit(rng, s, "ty-rep"), "ty-rep"
+        elif r < 0.95:   # whatever else the linter lets through must be wire compatible too
+            k = rng.choice([x for x in L.UNSAFE_KINDS if x not in ("ty-bare", "ty-rep")])
+            new = L.unsafe_edit(rng, s, k)
+            k = "unsafe:" + k
         else:
             new, k = s, "refl"
         if new is None or k is None:
@@ -103,7 +113,7 @@ def gen_ops(ctx):
         byk.setdefault(o[1], []).append((i, o))
     chosen = []
     while len(chosen) < want and any(byk.values()):   # round robin over the kinds
-        for k in sorted(byk):
+        for k in sorted(byk, key=lambda k: (not k.startswith(('ty-', 'unsafe:')), k)):   # the accepted-but-unsafe kinds first
             if byk[k] and len(chosen) < want:
                 chosen.append(byk[k].pop(0))
     binp, usable, lg = gen_pairs_module(ctx, [(i, o[2]["old"], o[2]["new"]) for i, o in chosen])
@@ -111,13 +121,20 @@ def gen_ops(ctx):
     if not binp:
         ctx._lint["enc_err"] = lg
         return ops
-    lines = [f"{i} {25 if quick else 100} {rng.randrange(1 << 30)}" for i in usable]
-    rc, out, err = run_lines(binp, [], lines, timeout=900)
-    if rc != 0 or len(out) != len(lines):
-        ctx._lint["enc_err"] = f"lintdrv exit {rc}: {err[-500:]}"
-        return ops
-    for i, r in zip(usable, out):
-        ctx._lint["enc"].append((ops[i], r))
+    # one process per pair: a fatal error of generated code (FillRandom of a recursive type can overflow the stack,
+    # findings F1/F7 of other properties) must not take the other pairs with it
+    crashed = 0
+    for i in usable:
+        rc, out, err = run_lines(binp, [], [f"{i} {25 if quick else 100} {rng.randrange(1 << 30)}"], timeout=300)
+        if rc != 0 or len(out) != 1:
+            head = err.strip().split("\n")[0] if err.strip() else f"exit {rc}"
+            if "stack overflow" in err or "goroutine stack exceeds" in err:
+                crashed += 1
+                continue
+            ctx._lint["enc"].append((ops[i], f"diff crash {head}"))
+        else:
+            ctx._lint["enc"].append((ops[i], out[0]))
+    ctx.notes["generated_code_stack_overflow_in_FillRandom_skipped"] = crashed
     return ops
 
 
@@ -125,6 +142,34 @@ def go_runner(ctx, lines):
     if ctx._lint["err"]:
         return None, ctx._lint["err"]
     return ctx._lint["go"], ""
+
+
+def tags_of_dump(sx):
+    return {m.group(1): int(m.group(2)) for m in re.finditer(r"\( c '(\S*) (\d+) ", sx)}
+
+
+def tag_changed(op):
+    """does some combinator of the old dump have another tag in the new dump"""
+    toks = op.split(" ", 2)[2]
+    depth, cut = 0, None
+    for i, ch in enumerate(toks):   # the op line is "lint <variant> <old sexp> <new sexp>"
+        if ch == "(":
+            depth += 1
+        elif ch == ")":
+            depth -= 1
+            if depth == 0:
+                cut = i + 1
+                break
+    old, new = tags_of_dump(toks[:cut]), tags_of_dump(toks[cut:])
+    return sorted(n for n, t in old.items() if n in new and new[n] != t)
+
+
+def replay_text(data):
+    """the failing pair itself (the scratch files are gone after the run)"""
+    try:
+        return f"{data['mode']} {data['old']} {data['new']} OLD={json.dumps(Path(data['old']).read_text())} NEW={json.dumps(Path(data['new']).read_text())}"
+    except OSError:
+        return f"{data['mode']} {data['old']} {data['new']}"
 
 
 def oracle(ctx, ops, go_out):
@@ -139,9 +184,12 @@ def oracle(ctx, ops, go_out):
             sig = "C28:F2:bare-flag"
         elif kind == "ty-rep":
             sig = "C28:repeat-contents"
+        elif tag_changed(op):
+            sig = "C28:tag-changed"
+            r += " [tags of " + ",".join(tag_changed(op)[:3]) + " differ]"
         else:
             sig = f"C28:encoding-differs:{kind}:{r.split(' ')[1] if ' ' in r else r}"
-        bad.append((f"pair {data['old']} {data['new']}", kind, r, sig))
+        bad.append((replay_text(data), kind, r, sig))
     if ctx._lint.get("enc_err"):
         bad.append(("generated-code harness", "harness", ctx._lint["enc_err"], "C28:harness"))
     ctx.notes["accepted_pairs_checked_on_generated_code"] = len(ctx._lint["enc"])
